@@ -54,6 +54,7 @@ type lexer struct {
 	start     int        // start position of a token being lexed in input string
 	width     int        // width of last rune read from input
 	tokens    chan token // the channel to report scanned tokens
+	verif     verifCounters // verification hook state; empty without build tag "verif"
 }
 
 const eof rune = -1
@@ -70,6 +71,7 @@ func lex(input string) *lexer {
 
 // next returns the next rune in the input.
 func (l *lexer) next() (r rune) {
+	verifNext(l)
 	if l.pos >= len(l.input) {
 		l.width = 0
 		return eof
@@ -173,6 +175,7 @@ func (l *lexer) nextToken() token {
 			}
 			return tok
 		default:
+			verifState(l)
 			l.lastState, l.state = l.state, l.state(l)
 		}
 	}
